@@ -14,7 +14,7 @@ RX = re.compile(rb"\r?\n")
 READS = [None, ("rb", 5, False), ("rb", 4, True), ("ri", 5, False), ("ri", 4, True), ("ru", b"\n"),
          ("rur",), ("ruc",), ("rur_mb", 2), ("ru_mb", 2)]
 LATER = [("rb", 2, False), ("rb", 3, True), ("ri", 2, False), ("ru", b"\n"), ("rur",), ("ruc",), ("rb", 50, False),
-         ("ri", 50, False)]
+         ("ri", 50, False), ("ru_mb", 2), ("rur_mb", 2)]
 CAUSES_CONNECTED = ["close", "close_exc", "eof", "reset_read", "eio_read", "epipe_write", "eio_write", "flush_then_epipe"]
 CAUSES_CONNECTING = ["close", "close_exc", "so_error"]
 DATA = [b"", b"x", b"xy\nzzzzzz", b"xxxxa\n\n"]     # the last one is used with read_chunk_size=4
@@ -100,6 +100,13 @@ def run(case):
             track("read", f)
             w.pump()
         for i in range(nwrites):
+            if cancel == "typed-partial" and i == 0:
+                # a memoryview of 4-byte items (5 items, 20 bytes) of which the socket takes 6 bytes before it blocks:
+                # more than the item count, fewer than the byte count - the write is still owed 14 bytes at the close
+                import array
+                sock.send_script.extend([6, "EAGAIN"])
+                track("write0", s.write(memoryview(array.array("I", [0x30773077] * 5))))
+                continue
             sock.blocked = True
             track("write%d" % i, s.write(b"w%d" % i * 10))
         w.pump()
@@ -413,6 +420,8 @@ def all_cases():
                                     continue
                                 for li in range(len(LATER)):
                                     yield (connecting, pre, ri, nw, di, mode, cause, li)
+                                if nw and not connecting and cause in ("close", "close_exc", "eof", "reset_read", "eio_read"):
+                                    yield (connecting, pre, ri, nw, di, mode, cause, 0, "typed-partial")
                                 # one of the pending operations was cancelled by its caller before the close
                                 for cancel in ("read", "write0", "connect"):
                                     if (cancel == "read" and ri == 0) or (cancel == "write0" and nw == 0) or \
@@ -429,7 +438,7 @@ class C13(Check):
     rule = ("full product: stream connecting or connected x pre-buffered data x pending read kind (8) x 0-2 "
             "writes blocked by EAGAIN x close cause {close(), close(exc_info), EOF, ECONNRESET on read, EIO on "
             "read, EPIPE on write, EIO on write, SO_ERROR on connect} x data {none, partial, satisfying} "
-            "arriving before or together with the cause x read issued after the close (8 kinds); also: first queued write "
+            "arriving before or together with the cause x read issued after the close (10 kinds, incl. delimiter reads with max_bytes the buffer cannot satisfy); also: first queued write "
             "taken by the transport and the next send failing, delimiter reads with max_bytes that cannot be satisfied, "
             "an SSLIOStream (client / server side) closed locally while its handshake is pending; plus the same with one of "
             "the pending futures (read / first write / connect) cancelled by its caller before the cause; "
